@@ -4,7 +4,11 @@ package main
 // window, series that start late or end early, irregular scrape times (jittered and exact), optional stale markers.
 
 import (
+	"encoding/json"
+	"fmt"
+	"math"
 	"sort"
+	"strconv"
 
 	"verifharness/internal/gen"
 )
@@ -19,17 +23,65 @@ type sample struct {
 	V float64 `json:"v"`
 }
 
+// JSON: finite values are numbers; NaN, +Inf, -Inf and the staleness marker are the strings "NaN" "+Inf" "-Inf" "stale"
+func (p sample) MarshalJSON() ([]byte, error) {
+	var v string
+	switch {
+	case isStale(p.V):
+		v = `"stale"`
+	case math.IsNaN(p.V):
+		v = `"NaN"`
+	case math.IsInf(p.V, 1):
+		v = `"+Inf"`
+	case math.IsInf(p.V, -1):
+		v = `"-Inf"`
+	default:
+		v = strconv.FormatFloat(p.V, 'g', -1, 64)
+	}
+	return []byte(fmt.Sprintf(`{"t":%d,"v":%s}`, p.T, v)), nil
+}
+
+func (p *sample) UnmarshalJSON(b []byte) error {
+	var raw struct {
+		T int64           `json:"t"`
+		V json.RawMessage `json:"v"`
+	}
+	if err := json.Unmarshal(b, &raw); err != nil {
+		return err
+	}
+	p.T = raw.T
+	switch string(raw.V) {
+	case `"stale"`:
+		p.V = staleNaN
+	case `"NaN"`:
+		p.V = math.NaN()
+	case `"+Inf"`:
+		p.V = math.Inf(1)
+	case `"-Inf"`:
+		p.V = math.Inf(-1)
+	default:
+		return json.Unmarshal(raw.V, &p.V)
+	}
+	return nil
+}
+
 type series struct {
 	Labels  map[string]string `json:"labels"`
 	Samples []sample          `json:"samples"`
 	Kind    string            `json:"kind"` // counter | gauge
 }
 
+// staleNaN is the bit pattern Prometheus uses as staleness marker (model/value.StaleNaN)
+var staleNaN = math.Float64frombits(0x7ff0000000000002)
+
+func isStale(v float64) bool { return math.Float64bits(v) == 0x7ff0000000000002 }
+
 type dataset struct {
 	DB      string   `json:"db"`
 	Series  []series `json:"series"`
 	SpanMs  int64    `json:"span_ms"`
 	Dense   bool     `json:"dense"`
+	Special bool     `json:"special,omitempty"`
 	Flushes int      `json:"flushes"`
 	// ingestion layout: the samples are written in Slices time slices with a flush after each but the last,
 	// and after the last one iff FinalFlush
@@ -59,8 +111,10 @@ var metrics = []metricDef{
 // quarter returns k/4 as an exactly representable float.
 func quarter(k int) float64 { return float64(k) / 4 }
 
-func genDataset(r *gen.Rand, db string, dense bool) dataset {
-	ds := dataset{DB: db, Dense: dense}
+// special: gauges carry NaN / +Inf / -Inf sample values and series carry staleness markers (a marker in the middle
+// of a series, or as its last sample)
+func genDataset(r *gen.Rand, db string, dense bool, special bool) dataset {
+	ds := dataset{DB: db, Dense: dense, Special: special}
 	span := int64(r.Range(20, 60)) * 60000
 	interval := int64(gen.Pick(r, []int{5000, 10000, 15000, 15000, 30000}))
 	if dense {
@@ -102,6 +156,7 @@ func genDataset(r *gen.Rand, db string, dense bool) dataset {
 					gaps = append(gaps, gap{lo, lo + lookbackMs + int64(r.Intn(400000))})
 				}
 				jitter := r.Chance(2, 3)
+				weird := special && r.Chance(1, 2)
 				val := float64(r.Intn(50))
 				if m.kind == "gauge" {
 					val = quarter(r.Range(-40, 400))
@@ -140,8 +195,20 @@ func genDataset(r *gen.Rand, db string, dense bool) dataset {
 					if inGap {
 						continue
 					}
-					s.Samples = append(s.Samples, sample{T: baseMs + ts, V: val})
+					v := val
+					if special && weird {
+						switch {
+						case m.kind == "gauge" && r.Chance(1, 25):
+							v = []float64{math.NaN(), math.Inf(1), math.Inf(-1)}[r.Intn(3)]
+						case r.Chance(1, 40):
+							v = staleNaN
+						}
+					}
+					s.Samples = append(s.Samples, sample{T: baseMs + ts, V: v})
 					last = ts
+				}
+				if special && weird && len(s.Samples) > 2 && r.Chance(1, 2) {
+					s.Samples[len(s.Samples)-1].V = staleNaN // the series ends with a staleness marker
 				}
 				if len(s.Samples) > 0 {
 					ds.Series = append(ds.Series, s)
